@@ -1,7 +1,7 @@
 /-
   C04 — lemmas about hash inputs, equality chains and the scripted value domain (arbitrary field lists).
 -/
-import AttrsModel.Spec.C04
+import AttrsModel.Spec.C04Base
 
 namespace Attrs.C04
 
